@@ -188,3 +188,33 @@ func HarnessC09Custom() {
 		vCover("evaluation-error")
 	}
 }
+
+
+var c09Faults = []string{
+	"{{ [1, 1 % 0] }}", "{{ [1, 2, nope] }}", "{{ [1].append(2, nope) }}", "{{ \"s\".at(0, 1 / 0) }}", "{{ {a: 1, b: 1 / 0} }}",
+	"{{ {a: 1, b: nope}.a }}", "{{ [[1, nope]] }}", "{{ \"s\".then(1, nope) }}", "{{ [1, 2][nope] }}",
+	"@component(\"x\", {a: 1, b: nope})", "{{ x = [1, 1 / 0] }}", "@each(v in [1, 1 % 0])x@end", "{{ 1 + [1, nope][0] }}",
+}
+
+// HarnessC09Faults: a fault in a later array element, call argument or object entry is reported as an error with its
+// line, never rendered as text and never dropped. (@dump is left out: it dumps whatever its arguments evaluate to,
+// an error object included.)
+func HarnessC09Faults() {
+	src := c09Faults[vChoice("template", len(c09Faults))]
+	lead := []string{"", "\n", "a\n\nb"}[vChoice("leading-lines", 3)]
+	out, err, _ := renderChecked(lead+src, nil)
+	vCover("returned")
+	vAssert(err != nil && out == "", "fault-in-a-later-element-is-reported")
+	vCover("evaluation-error")
+	vAssert(err.Line() == uint(1+countNL(lead)), "error-carries-the-line-of-the-construct")
+}
+
+func countNL(s string) int {
+	n := 0
+	for i := 0; i < len(s); i++ {
+		if s[i] == '\n' {
+			n++
+		}
+	}
+	return n
+}
